@@ -58,6 +58,16 @@ def gen_scenario(rng, profile=None):
     if scn["delete_old"]:
         scn["delete_old_all"] = p.get("delete_old_all", rng.random() < 0.5)
     scn["plan"] = p.get("plan") or [{"inp": "infretis.toml", "steps": steps}]
+    if scn["engine"] == "turtlemd":
+        # the repository's double-well example: 8 interfaces, real TurtleMD integrators
+        scn["n_intf"] = 8
+        scn["moves"] = ["sh", "sh"] + [rng.choice(["sh", "wf"]) for _ in range(6)]
+        scn["cap"] = None
+        scn["lambda_minus_one"] = False
+        scn["multi_engine"] = False
+        scn["maxlength"] = p.get("maxlength", 2000)
+        scn["workers"] = min(scn["workers"], 7)
+        scn["integrator"] = p.get("integrator", "LangevinInertia")
     return scn
 
 
